@@ -114,7 +114,7 @@ class Ctx(object):
         r = None
         self._hsum[ks[0]] = None          # (recursion guard)
         rt = qtype(f).split('(')[0].strip()
-        if is_internal(f) and rt == 'bool' and len(list(walk(f))) < 300:
+        if is_internal(f) and (rt == 'bool' or rt.endswith('*')) and len(list(walk(f))) < 300:
             F = self.facts(f)
             g = self.cfg(f)
             cases = []
